@@ -72,6 +72,10 @@ def call_repo(I, f, args, kwargs, e, fr, closure=None, self_val=None):
             # closures: make the defining frame's variables visible
             saved = None
         ret = I.call_function(f, list(args), dict(kwargs), e)
+        if any("cache" in d for d in f.decorators):
+            # functools.cache / lru_cache: the returned object is handed out again on every later call
+            I.mark_shared(ret, f"cache decorator of {f.fq}")
+            I.events.append(("decorated-cache", f.fq, where(fr, e)))
         return ret
     # opaque: pure with respect to circuits (its closure contains no circuit operation)
     if has_ref_circuit:
